@@ -6,6 +6,7 @@ import (
 	"errors"
 	"fmt"
 	"io"
+	"math"
 	"net/http"
 	"strings"
 
@@ -640,15 +641,22 @@ func walkGatewaySimpleSelector(ctx context.Context, lastCid cid.Cid, terminalBlk
 				to = fileLength + *entityRange.To
 			}
 
-			numToRead := 1 + to - from
-			if numToRead < 0 {
+			// The number of bytes to read is to-from+1. Here from >= 0, so
+			// from-1 and (once to >= from-1) to-from cannot overflow, while
+			// 1+to-from does for to = math.MaxInt64.
+			if to < from-1 {
 				return errors.New("tried to read less than zero bytes")
 			}
 
 			if _, err := f.Seek(from, io.SeekStart); err != nil {
 				return err
 			}
-			_, err = io.CopyN(io.Discard, f, numToRead)
+			if to-from == math.MaxInt64 {
+				// Everything from 'from' on is requested.
+				_, err = io.Copy(io.Discard, f)
+				return err
+			}
+			_, err = io.CopyN(io.Discard, f, to-from+1)
 			return err
 		default:
 			// Not a supported type, so we're done
